@@ -145,7 +145,7 @@ pub fn canonicalize(v: &mut Value) {
 fn is_leaf_pure(v: &Value) -> bool {
     matches!(
         ty(v),
-        "Identifier" | "ThisExpression" | "StringLiteral" | "NumericLiteral" | "BooleanLiteral" | "NullLiteral" | "BigIntLiteral"
+        "Identifier" | "ThisExpression" | "StringLiteral" | "NumericLiteral" | "BooleanLiteral" | "NullLiteral" | "BigIntLiteral" | "RegExpLiteral"
     )
 }
 
@@ -579,7 +579,39 @@ impl Eraser {
             }
             assigned.push(name);
         }
-        let last = self.erase(&exprs[n - 1])?;
+        let mut last = self.erase(&exprs[n - 1])?;
+        // `(t0 = OBJ, t1 = KEY, t0[t1] = hook(t0[t1] + R, ..))`: the lowering of `OBJ[KEY] += R` with an effectful
+        // target. Both copies of the target come from the same single evaluation (the temporaries): fold it
+        // back here and do not count the second copy as a second use.
+        if ty(&last) == "AssignmentExpression" && last["operator"] == json!("=") && ty(&last["left"]) == "MemberExpression" {
+            let r = &last["right"];
+            if ty(r) == "BinaryExpression" && r["operator"] == json!("+") && r.get("$hook").is_some() && equal_ignoring_meta(&last["left"], &r["left"]) {
+                let mut dup = vec![];
+                collect_from_postorder(&r["left"], &mut dup);
+                let suffix = format!("#{seq_id}");
+                let mut only_temps_duplicated = true;
+                // the duplicated sub-expressions must be exactly substitutions of temporaries of this sequence (or pure leaves)
+                if !target_parts_from_temps(&r["left"], &suffix) {
+                    only_temps_duplicated = false;
+                }
+                if only_temps_duplicated {
+                    for d in dup.iter().filter_map(|d| d.strip_suffix(&suffix)) {
+                        if let Some(b) = self.env.get_mut(d) {
+                            if b.uses > 0 {
+                                b.uses -= 1;
+                            }
+                        }
+                    }
+                    let obj = last.as_object_mut().unwrap();
+                    let right = obj.remove("right").unwrap();
+                    obj.insert("operator".into(), json!("+="));
+                    obj.insert("right".into(), right["right"].clone());
+                    if let Some(h) = right.get("$hook") {
+                        obj.insert("$hook".into(), h.clone());
+                    }
+                }
+            }
+        }
         // every temporary of this sequence is used exactly once
         for name in &assigned {
             let b = self.env.get(name).unwrap();
@@ -893,6 +925,20 @@ fn child_rank(node_type: &str, key: &str) -> u8 {
         ("IfStatement", "test") => 0,
         _ => 1,
     }
+}
+
+/// object and (computed) key of a member target are substituted temporaries of the sequence `suffix`, or pure leaves
+fn target_parts_from_temps(target: &Value, suffix: &str) -> bool {
+    let from_seq = |v: &Value| v.get("$from").and_then(|f| f.as_array()).map(|a| a.iter().any(|n| n.as_str().map(|s| s.ends_with(suffix)).unwrap_or(false))).unwrap_or(false);
+    let leaf = |v: &Value| matches!(ty(v), "Identifier" | "ThisExpression" | "StringLiteral" | "NumericLiteral" | "BooleanLiteral" | "NullLiteral" | "BigIntLiteral" | "RegExpLiteral" | "SuperPropExpression");
+    let obj = &target["object"];
+    let obj_ok = from_seq(obj) || leaf(obj);
+    let prop = &target["property"];
+    let prop_ok = match ty(prop) {
+        "Computed" => from_seq(&prop["expression"]) || leaf(&prop["expression"]),
+        _ => true,
+    };
+    obj_ok && prop_ok
 }
 
 /// names in `$from` tags in post-order (completion order of evaluation)
